@@ -14,8 +14,13 @@ use common::*;
 static GLOBAL: alloc::Counting = alloc::Counting;
 use std::process::Command;
 
-/// Properties for which the death of the checking process is itself a violation.
-const DEATH_IS_VIOLATION: &[&str] = &["C03", "C05", "C09", "C11"];
+/// Properties for which the death of the checking process is itself a violation: every check that
+/// calls the codec in-process. Each of these properties requires the calls it makes to return (a
+/// value or an error); a segmentation fault, abort or stack overflow of the real code is never
+/// acceptable behaviour, and on the unchanged tree no check dies. C17 and C20 only drive rustc / cargo.
+const DEATH_IS_VIOLATION: &[&str] = &[
+	"C01", "C02", "C03", "C04", "C05", "C06", "C07", "C08", "C09", "C10", "C11", "C12", "C13", "C14", "C15", "C16", "C18", "C19",
+];
 
 fn usage() -> ! {
 	eprintln!("usage: pscv <C01..C20> [--tier quick|thorough] [--replay <file>]");
